@@ -494,7 +494,9 @@ impl crate::vm::VM {
         let mut end = 0usize;
         let mut frames = Vec::new();
         for (f, a) in self.frames.iter().zip(fr.iter()) {
-            end = end.max(f.base + f.num_registers as usize);
+            // dump up to the window the function actually uses, even if the frame records less
+            let n = (f.num_registers as usize).max(a.function_num_registers.unwrap_or(0));
+            end = end.max(f.base + n);
             frames.push((f.base, f.num_registers as usize, f.function().index(), a.closure));
         }
         let end = end.min(self.registers.len());
